@@ -33,7 +33,7 @@ Print Assumptions C16_registry_hooks_match_source.
 (* The 20 functions of the teardown path have exactly the shape (ordered effects, control
    structure, `if` tests) the model was written against. *)
 Theorem C16_teardown_shapes_match_source :
-  shapes_eqb source_shapes expected_shapes || shapes_eqb source_shapes expected_shapes_d16k = true.
+  shapes_eqb source_shapes expected_shapes = true.
 Proof. vm_compute. reflexivity. Qed.
 Print Assumptions C16_teardown_shapes_match_source.
 
@@ -256,6 +256,12 @@ Example C16_late_registration_now_cancelled :
   map (fun x => (w_id x, st_code (w_st x))) (waiters (run model_registries ops1 init)) = [(7, 12)] /\
   map (fun x => (w_id x, st_code (w_st x))) (waiters (run model_registries ops2 init)) = [(7, 12)].
 Proof. vm_compute. repeat split; reflexivity. Qed.
+
+(* the shape of the code before D16k (commands written into a lost transport) is rejected *)
+Example C16_pre_d16k_shape_rejected :
+  shapes_eqb pre_d16k_shapes expected_shapes = false /\
+  first_difference pre_d16k_shapes expected_shapes = Some "host.Host.on_transport_lost"%string.
+Proof. vm_compute. split; reflexivity. Qed.
 
 (* a command is written, its caller is cancelled before the answer, the answer arrives
    later and is ignored; the gate is busy in between and free at the end *)
